@@ -53,7 +53,10 @@ func TestSingleTermSweep(t *testing.T) {
 			return
 		}
 		text := template(f, term)
-		ks, err := optSeconds.parse(text)
+		ks, err, pv := safeParse(optSeconds, text)
+		if pv != nil {
+			t.Fatalf("C04 violated: Parse panicked (%v)\ncase: {parser=seconds expr=%q}", pv, text)
+		}
 		if err != nil {
 			sec.Case(false, 0, "refused-by-kit")
 			return
@@ -143,4 +146,71 @@ func TestSingleTermSweep(t *testing.T) {
 		}
 	}
 	sec.SetExhaustive()
+}
+
+// TestFiveYearBound walks start instants month by month across 1999-2005 (2000
+// is a leap year) and 2095-2104 (2100 is not: 29 February is eight years apart)
+// for expressions that only match on 29 February. This is the only place where a
+// satisfiable expression reaches the five-year bound: a hit within five years of
+// the start must be returned, the zero time must be returned when there is no hit
+// by the end of calendar year start+5, and in between both answers are accepted.
+func TestFiveYearBound(t *testing.T) {
+	sec := vk.Sec("FiveYearBound")
+	type zs struct {
+		name   string
+		stride int // months between start instants
+	}
+	idx := 0
+	for _, z := range []zs{{"UTC", 1}, {"Asia/Kathmandu", 1}, {"Etc/GMT-14", 1}, {"Europe/Berlin", 7}, {"America/New_York", 11}} {
+		zi := zone(z.name)
+		for _, o := range []optSet{optStandard, optSeconds} {
+			for _, body := range []string{"0 0 29 2 *", "59 23 29 FEB ?", "*/7 5 29-31 2 *"} {
+				text := body
+				if !o.std {
+					text = "0 " + body
+				}
+				ks, err, pv := safeParse(o, text)
+				if pv != nil {
+					t.Fatalf("C04 violated: Parse panicked (%v)\ncase: {parser=%s expr=%q}", pv, o.name, text)
+				}
+				rs, rerr := refcron.Parse(text, o.ref)
+				if rerr != nil {
+					t.Fatalf("C04 harness error: reference parser refuses %q: %v", text, rerr)
+				}
+				if err != nil {
+					sec.Case(false, 0, "refused-by-kit") // not judged: the statement speaks about accepted expressions
+					continue
+				}
+				for _, span := range [][2]int{{1999, 2005}, {2095, 2104}} {
+					for m := 0; m < (span[1]-span[0])*12; m += z.stride {
+						idx++
+						if !vk.Mine(idx) {
+							continue
+						}
+						// the 1st and the last second of February / the 1st of other months, with a sub-second part
+						at := time.Date(span[0], time.Month(1+m), 1, 0, 0, 0, 500, zi.loc)
+						if m%12 == 2 {
+							at = at.Add(-time.Second) // last second of February
+						}
+						c := func() string {
+							return fmt.Sprintf("{parser=%s expr=%q schedule-zone=%s start=%s}", o.name, text, z.name, fmtT(at))
+						}
+						got := guardedNext(ks, at, c)
+						msg, ans := judgeNext(rs, zi.loc, at, got)
+						if msg != "" {
+							t.Fatalf("C04 five-year bound violated: %s\ncase: %s", msg, c())
+						}
+						cls := "bound.hit-within-five-years"
+						if !ans.found {
+							cls = "bound.none-by-end-of-year+5"
+						} else if !ans.must {
+							cls = "bound.edge-either"
+						}
+						sec.Case(true, vk.FP(c()), cls)
+						sec.Sample(func() any { return c() + " -> " + fmtT(got) })
+					}
+				}
+			}
+		}
+	}
 }
